@@ -25,7 +25,7 @@ def run(rep, prog, tier):
     rep.assume('np.linalg.solve is exact and a valid network never reaches the LinAlgError -> zeros fallback (not decided)')
     interps = SR.analyse(prog)
     n = SR.emit(rep, 'R01.space', interps, ['mna', 'bias'])
-    if n < 40: rep.error(f'only {n} index-space obligations found in the MNA path')
+    if n < 10: rep.error(f'only {n} index-space obligations found in the MNA path')
     rep.count('space_obligations', n)
     layout(rep, interps)
     signs(rep, prog, interps)
